@@ -30,14 +30,14 @@ ASSUMPTIONS = [
 ]
 
 IDX_PAL = [0.0, 1.0, -9999.25, 0.5, -12345.678, 1e5, 123456789.125, 4e-6, 1e15, -4e-6, 2.5e-7, 1e22]
-VAL_PAL = [0.0, -0.0, 4e-6, -4e-6, 0.5, 1.0, float("nan"), -12345.678, 1e5, 123456789.125, 1e15, 1e22, 1e73,
+VAL_PAL = [-0.0123, 0.0, -0.0, 4e-6, -4e-6, 0.5, 1.0, float("nan"), -12345.678, 1e5, 123456789.125, 1e15, 1e22, 1e73,
            float("nan"), 1e80, 1e300, 5e-324, 2.5e-7, -9999.2567, -9999.2, 9999.25]  # the last three sit next to the NULL marker
 
 AXES = [
     ("version", [2.0, 1.2]),
     ("wrap", [False, True]),
     ("fmt", ["%.5f", "%.2f", "%.0f", "%g", "%.3e", "%.10g"]),
-    ("column_fmt", [None, "first", "last"]),
+    ("column_fmt", [None, "first", "last", "finer-second"]),
     ("len_numeric_field", [None, -1, 5, 20]),
     ("spacer", [" ", "   ", "\t"]),
     ("lhs_spacer", [" ", "", "   "]),
@@ -49,6 +49,8 @@ AXES = [
     # how the object came to be: built through the API, or read from text with a case-normalising option and then
     # given the palette matrix (its header mnemonics are then lower/upper case)
     ("origin", ["built", "read-lower", "read-upper"]),
+    # the NULL marker of the object (its printed form differs: -9999.25, 1e+30, -999, 0 is not used: 0.0 is a palette value)
+    ("null", [None, 1e30, -999, -1e-5]),
 ]
 
 
@@ -163,6 +165,10 @@ def check_point(pt):
         kw["column_fmt"] = {0: "%.3f"}
     elif cf == "last":
         kw["column_fmt"] = {nc - 1: "%.1f"}
+    elif cf == "finer-second":
+        kw["column_fmt"] = {min(1, nc - 1): "%.7f"}   # a column printed with MORE digits than fmt
+    if cfg.get("null") is not None:
+        las.well["NULL"].value = cfg["null"]
     if cfg["dlm"]:
         las.version.DLM = cfg["dlm"]
         kw["spacer"] = {"COMMA": ",", "TAB": "\t"}[cfg["dlm"]]
